@@ -25,6 +25,14 @@ def make_cmap(mobspec, theta=0.0, trans=(0, 0), scale=1.0, extent=1.0):
     return T.CMap(ops)
 
 
+def lab_for(vm):
+    """vertex labelling spec -> labelling dict; ["stored_rev"] = ids reversed AND vertices stored in ascending id order (every
+    loop over the vertex dict then runs backwards with respect to the natural order)"""
+    if vm == ["stored_rev"]:
+        return {"vmap": ["rev"], "vorder": "id"}
+    return {"vmap": vm}
+
+
 def noise_post(amp, pattern):
     """smooth, deterministic, non-conformal deformation of all points (makes a non-equilibrium tissue)"""
     ph = [0.0, 1.3, 2.1, 4.4][pattern % 4]
